@@ -1,7 +1,7 @@
 (* Single entry point val -> val for every modelled function; used by the extracted
    runner and by the generated in-Coq case files. *)
 From Coq Require Import ZArith List Bool.
-From Gabi Require Import Val ModArith Bytes Der Sha256 HashTool GoSem ParamsDef ZkProof Keys RangeProof NonRev Core CL Prover RangeSound Revocation NonRevProver Keyshare MathUtil Codec FilePerm KeyDoc.
+From Gabi Require Import Val ModArith Bytes Der Sha256 HashTool GoSem ParamsDef ZkProof Keys RangeProof NonRev Core CL Prover RangeSound Revocation NonRevProver Keyshare MathUtil Codec FilePerm KeyDoc EventList.
 From Gabi Require Cache Concurrency KeyGen KeyProofWire.
 Import ListNotations.
 Open Scope Z_scope.
@@ -312,6 +312,14 @@ Definition d_update_prepend (v : val) : val := ret (
   | _ => None
   end).
 
+Definition d_uncompress (v : val) : val := ret (
+  match v with
+  | VL [cp; c] =>
+    do cp <- as_bool cp; do c <- as_cel c;
+    Some (of_outcome (fun r => VL [VL (map of_event (fst r)); of_oZ (snd r)]) (uncompress cp c))
+  | _ => None
+  end).
+
 Definition d_hash_equal (v : val) : val := ret (
   match v with
   | VL [a; b] => do a <- as_LZ a; do b <- as_LZ b; Some (of_bool (hash_equal a b))
@@ -518,6 +526,7 @@ Definition dispatch (fn : Z) (v : val) : val :=
   | 1804 => d_privkey_write v
   | 1805 => d_parse_pubkey v
   | 1806 => d_parse_privkey v
+  | 1807 => d_uncompress v
   | 1901 => d_mod_inverse v
   | 1902 => d_modpow v
   | 1903 => d_legendre v
